@@ -33,6 +33,18 @@ package main
 //   runAllocs… : per-run allocation facts (does runner.run itself call initChannelManager /
 //     initTaskManager / extractOption / r.runCtx and bind the result to a local).
 //
+//   extractOptionCopies : Bool   every store into the per-run option map of extractOption has the
+//     form `optMap[k] = append(optMap[k], …)` (the built-in append whose destination is that very
+//     entry): the destination starts as the nil slice of a fresh map, so Go allocates storage of
+//     the run for the first group and later groups go to that storage.  Any other right-hand side
+//     (a helper that may return its argument, a caller's slice, append to something else) could
+//     leave a window into the caller's `Option.options` array in the map – memory shared by every
+//     run that was given the same Option value.
+//   toolsNodeRunPathWrites : List String   assignments through the receiver in the methods of
+//     ToolsNode reachable from ToolsNode.Invoke / ToolsNode.Stream (a subset of rule (b), named,
+//     because the node object is shared by every run: a tool list given by call option must be
+//     converted into locals of the call).
+//
 // It is a syntactic over-approximation over a fixed list of packages; it never guesses:
 // if an anchor (runner.run, react.NewAgent, …) cannot be located the fact is `unknown`.
 
@@ -908,6 +920,129 @@ func c09StrList(xs []string) string {
 	return "[" + strings.Join(q, ", ") + "]"
 }
 
+// c09ExtractOptionFact: in extractOption, the option map is a local made in the call
+// (`optMap := map[string][]any{}` / make(...)), and every assignment to one of its entries is
+// `optMap[K] = append(optMap[K], …)` with the built-in append and the same index expression.
+func c09ExtractOptionFact(cp *c09Pkg) Fact {
+	fd, file := cp.p.Func("", "extractOption")
+	if fd == nil || fd.Body == nil {
+		return unknownFact("extractOptionCopies", "Bool", "false", "compose", "function extractOption not found")
+	}
+	where := "compose/" + file + ": extractOption"
+	// the map variable: the local returned as first result, defined from a map literal / make
+	mapVar := ""
+	ast.Inspect(fd.Body, func(x ast.Node) bool {
+		as, ok := x.(*ast.AssignStmt)
+		if !ok || as.Tok != token.DEFINE || len(as.Lhs) != 1 || len(as.Rhs) != 1 || mapVar != "" {
+			return true
+		}
+		id, ok := as.Lhs[0].(*ast.Ident)
+		if !ok {
+			return true
+		}
+		switch v := as.Rhs[0].(type) {
+		case *ast.CompositeLit:
+			if _, isMap := v.Type.(*ast.MapType); isMap {
+				mapVar = id.Name
+			}
+		case *ast.CallExpr:
+			if f, ok := v.Fun.(*ast.Ident); ok && f.Name == "make" && len(v.Args) > 0 {
+				if _, isMap := v.Args[0].(*ast.MapType); isMap {
+					mapVar = id.Name
+				}
+			}
+		}
+		return true
+	})
+	if mapVar == "" {
+		return unknownFact("extractOptionCopies", "Bool", "false", where, "no local map made in extractOption")
+	}
+	stores, good := 0, 0
+	var bad []string
+	appendShadowed := false
+	ast.Inspect(fd, func(x ast.Node) bool {
+		switch v := x.(type) {
+		case *ast.AssignStmt:
+			for i, l := range v.Lhs {
+				if id, ok := l.(*ast.Ident); ok && id.Name == "append" {
+					appendShadowed = true
+				}
+				ix, ok := l.(*ast.IndexExpr)
+				if !ok {
+					continue
+				}
+				if root, ok := ix.X.(*ast.Ident); !ok || root.Name != mapVar {
+					continue
+				}
+				stores++
+				okStore := false
+				if v.Tok == token.ASSIGN && len(v.Lhs) == len(v.Rhs) {
+					if c, ok := v.Rhs[i].(*ast.CallExpr); ok {
+						if f, ok := c.Fun.(*ast.Ident); ok && f.Name == "append" && f.Obj == nil && len(c.Args) >= 2 {
+							if exprString(c.Args[0]) == exprString(l) {
+								okStore = true
+							}
+						}
+					}
+				}
+				if okStore {
+					good++
+				} else {
+					bad = append(bad, cp.line(l.Pos()))
+				}
+			}
+		case *ast.Field:
+			for _, n := range v.Names {
+				if n.Name == "append" {
+					appendShadowed = true
+				}
+			}
+		}
+		return true
+	})
+	// the map must not be handed to a helper that could store into it either
+	escapes := false
+	ast.Inspect(fd.Body, func(x ast.Node) bool {
+		if c, ok := x.(*ast.CallExpr); ok {
+			for _, a := range c.Args {
+				if id, ok := a.(*ast.Ident); ok && id.Name == mapVar {
+					escapes = true
+				}
+			}
+		}
+		return true
+	})
+	f := boolFact("extractOptionCopies", stores > 0 && good == stores && !appendShadowed && !escapes,
+		where+fmt.Sprintf(": every store into %s (a map made in the call) is `%s[k] = append(%s[k], …)` with the built-in append: the values of the per-run option map are storage of the run, never the caller's Option.options slice (stores %d, of that form %d, others at %v)", mapVar, mapVar, mapVar, stores, good, bad))
+	return f
+}
+
+// c09ToolsNodeFact: receiver writes in the ToolsNode methods reachable from ToolsNode.Invoke / Stream.
+func c09ToolsNodeFact(cp *c09Pkg, g *c09Graph) Fact {
+	inv, _ := cp.p.Func("ToolsNode", "Invoke")
+	str, _ := cp.p.Func("ToolsNode", "Stream")
+	if inv == nil || str == nil {
+		return unknownFact("toolsNodeRunPathWrites", "List String", "[]", "compose", "ToolsNode.Invoke / ToolsNode.Stream not found")
+	}
+	var keys []string
+	seen := map[string]bool{}
+	for fd := range g.reach([]*ast.FuncDecl{inv, str}) {
+		if recvName(fd) != "ToolsNode" {
+			continue
+		}
+		for _, w := range cp.receiverWrites(fd, g.file[fd]) {
+			if !strings.Contains(w.key, ":receiver:") || seen[w.key] {
+				continue
+			}
+			seen[w.key] = true
+			keys = append(keys, w.key)
+		}
+	}
+	sort.Strings(keys)
+	return Fact{Name: "toolsNodeRunPathWrites", Type: "List String", Value: c09StrList(keys),
+		Where: "compose/tool_node.go: assignments through the receiver in the ToolsNode methods reachable from ToolsNode.Invoke / ToolsNode.Stream (must be []: the node is shared by all runs; the conversion of a WithToolList option is a local of the call)"}
+}
+
 func factsC09(r *Repo) []Fact {
 	var out []Fact
 	debug := os.Getenv("C09_DEBUG") != ""
@@ -1043,6 +1178,10 @@ func factsC09(r *Repo) []Fact {
 				where+": `ctx = r.runCtx(ctx)`; the runCtx closure stores &internalState{state: <generator call>} in the context"))
 		}
 	}
+
+	// ---------- call options: values of the per-run option map, ToolsNode fields ----------
+	out = append(out, c09ExtractOptionFact(compose))
+	out = append(out, c09ToolsNodeFact(compose, g))
 
 	// ---------- shared writes ----------
 	var writes []c09Write
